@@ -287,6 +287,7 @@ func (p *parserState) consumeArray(b []byte, qs []query, lvl int) (n int) {
 			p.ib++
 			continue
 		case ']':
+			p.currPath = p.currPath[:len(p.currPath)-1]
 			p.ib++
 			return n + 1
 		default:
